@@ -886,7 +886,7 @@ Proof.
   { intros c. destruct (touched_dec [] memo1 c) as [Ht'|Hnt].
     - now apply Q3.
     - rewrite (Q4 c Hnt). eapply osloteq_trans; [apply H21|]. rewrite (B5 c Hnt). apply osloteq_refl. }
-  destruct (quick_set sw' (b_params b)); eexists _, _; (split; [reflexivity|split; [exact Hall|exact Q5]]).
+  destruct (b_live b); [destruct (quick_set sw' (b_params b))|]; eexists _, _; (split; [reflexivity|split; [exact Hall|exact Q5]]).
 Qed.
 
 Definition enters_ok (evs : list event) : Prop := Forall (fun e => ev_kind e = EvEnter -> ev_out e = OOk) evs.
@@ -1080,8 +1080,8 @@ Definition ex_td1 : ptd :=
   PTD [("w", PLeaf (Some (oT 11))); ("r", PLeaf (Some (oT 12))); ("a", PSub (PTD [("w", PLeaf (Some (oP 13)))]));
        ("b", PSub (PTD [("w", PLeaf (Some (oP 14)))])); ("c", PSub (PTD [("w", PLeaf (Some (oT 15)))]))].
 Definition ex_td2 : ptd := PTD [("w", PLeaf (Some (oP 21)))].
-Definition ex_b1 := mkBlock 0 None false false false ex_td1.
-Definition ex_b2 := mkBlock 0 (Some false) false false false ex_td2.
+Definition ex_b1 := mkBlock 0 None false false false true ex_td1.
+Definition ex_b2 := mkBlock 0 (Some false) false false false false ex_td2.   (* a temporary source *)
 
 Lemma ex_hyps : Forall (block_ok (t_heap ex_st)) [ex_b1; ex_b2] /\ wf_heap (t_heap ex_st).
 Proof.
@@ -1100,7 +1100,7 @@ Qed.
 
 (* D131: a buffer name given an nn.Parameter, normal exit: the buffer ends in __dict__ *)
 Definition ex_td3 : ptd := PTD [("r", PLeaf (Some (oP 12)))].
-Definition ex_b3 := mkBlock 0 None false false false ex_td3.
+Definition ex_b3 := mkBlock 0 None false false false true ex_td3.
 Lemma ex_D131 :
   let '(st', evs, oc) := run_blocks (mkExc XNone 0 false) [ex_b3] 0 ex_st in
   Forall (fun e => ev_out e = OOk) evs /\ ~ all_sloteq st' ex_st.
@@ -1111,7 +1111,7 @@ Proof.
 Qed.
 
 (* D134: inplace=True with a tied tensor: same objects, but the content is not the original one *)
-Definition ex_b4 := mkBlock 0 (Some true) false false false
+Definition ex_b4 := mkBlock 0 (Some true) false false false true
   (PTD [("w", PLeaf (Some (oT 11))); ("c", PSub (PTD [("w", PLeaf (Some (oT 15)))]))]).
 Definition ex_heap4 : heap :=
   [ (0%Z, mkNode false [("w", Some (oP 1))] [] [] [("c", Some 2%Z)]); (2%Z, mkNode false [("w", Some (oP 1))] [] [] []) ].
@@ -1206,8 +1206,8 @@ Proof.
 Qed.
 
 (* use_state_dict=True (D132 repaired) and swap_dest= (D133 repaired) on the example heap: normal exit, the heap is back *)
-Definition ex_b5 := mkBlock 0 None true false false (PTD [("w", PLeaf (Some (oT 11)))]).
-Definition ex_b6 := mkBlock 0 None false true false (PTD [("w", PLeaf (Some (oT 11)))]).
+Definition ex_b5 := mkBlock 0 None true false false false (PTD [("w", PLeaf (Some (oT 11)))]).
+Definition ex_b6 := mkBlock 0 None false true false true (PTD [("w", PLeaf (Some (oT 11)))]).
 Lemma ex_usd_swap_dest_run :
   (let '(st', evs, oc) := run_blocks (mkExc XNone 0 false) [ex_b5] 0 (mkSt ex_heap4 ex_vals FRESH_BASE) in
    oc = OOk /\ t_heap st' = ex_heap4)
@@ -1226,4 +1226,18 @@ Proof.
   intros Hb Ht. destruct (enter_facts b st st1 memo1 swap Hb Ht) as (P1 & _).
   destruct P1 as (B1 & B2 & B3 & B4 & B5 & B6 & B7 & B8).
   repeat split; auto. intros c Hc. apply B5. intros (T1 & T2). congruence.
+Qed.
+
+(* the state the inverse leaves does not depend on whether the source tensordict is still alive at exit time: what is
+   re-installed comes from the swap (the object the with-statement holds); the source is only the swap destination *)
+Definition with_live (b : block) (l : bool) : block :=
+  mkBlock (b_target b) (b_inplace b) (b_usd b) (b_swap_dest b) (b_manual b) l (b_params b).
+Lemma reverse_state_live_irrelevant b swap st l1 l2 :
+  fst (reverse_to_module (with_live b l1) swap st) = fst (reverse_to_module (with_live b l2) swap st).
+Proof.
+  unfold reverse_to_module, with_live, cfg_of.
+  cbn [b_target b_inplace b_usd b_swap_dest b_manual b_live b_params].
+  destruct (b_swap_dest b && negb fixed_D133); [reflexivity|].
+  match goal with |- context [to_module ?c swap ?m st] => destruct (to_module c swap m st) as [st' mm sw'|st' e] end; [|reflexivity].
+  destruct l1, l2; try destruct (quick_set sw' (b_params b)); reflexivity.
 Qed.
